@@ -55,7 +55,7 @@ func runRange(r rangeCase) (*Fail, bool) {
 	if err != nil {
 		return failf("harness-compress", "%s %v", where, err), false
 	}
-	ks, err := parseKanzi(stream)
+	ks, err := parseKanziOpt(stream, r.P.Headerless, int(r.P.Checksum))
 	if err != nil || len(ks.Blocks) != r.Blocks {
 		return failf("harness-kzfmt", "parse: %v blocks=%d want %d", err, len(ks.Blocks), r.Blocks), false
 	}
@@ -75,7 +75,9 @@ func runRange(r rangeCase) (*Fail, bool) {
 				}
 			}
 		}
-		ctx := map[string]any{"jobs": r.Jobs, "from": from, "to": to}
+		pp := r.P
+		ctx := readerCtx(r.Jobs, &pp)
+		ctx["from"], ctx["to"] = from, to
 		rd, err := kio.NewReaderWithCtx(newSrc(in), ctx)
 		if err != nil {
 			return failf("range-rejected "+cls, "reader construction with from=%d to=%d: %v", from, to, err)
@@ -143,6 +145,16 @@ func init() {
 		e1Summary(c, results)
 		famRange.Timeout = 120 * time.Minute // one case = every range of one stream
 		famRange.Each(c, 0, func(emit func(rangeCase)) {
+			// headerless streams: the reader is told the parameters, the range must still apply
+			for _, cd := range [][2]string{{"NONE", "NONE"}, {"LZ", "HUFFMAN"}} {
+				for _, ck := range []uint{0, 64} {
+					for _, j := range []uint{1, 2, 3, 8} {
+						for _, hint := range []int64{-1, 5*1024 - 724} {
+							emit(rangeCase{P: Params{cd[0], cd[1], 1024, 2, ck, hint, true, false}, Blocks: 5, Tail: 300, Jobs: j, RB: 1024})
+						}
+					}
+				}
+			}
 			// long streams (more blocks than the 63-block cap of the header's block-count hint), with and
 			// without the size in the header: boundary ranges around block 63/64 and around the end
 			for _, nb := range []int{64, 70, 130} {
